@@ -2,12 +2,14 @@ use crate::core::Cx;
 
 pub mod c13;
 pub mod c14;
+pub mod c15;
 pub mod c20;
 
 pub fn run(id: &str, cx: &mut Cx) -> bool {
     match id {
         "C13" => c13::run(cx),
         "C14" => c14::run(cx),
+        "C15" => c15::run(cx),
         "C20" => c20::run(cx),
         _ => return false,
     }
